@@ -846,16 +846,10 @@ fn gen_cases(opts: &Opts, keys: &Keys) -> Vec<Value> {
 
 pub fn child(opts: &Opts) {
     // runs the cases of --replay from index --n on, one flushed outcome line per case
-    use std::io::Write;
     let mut krng = case_rng(7, 7, 7);
     let keys = Keys::new(&mut krng);
     let cases = read_cases(opts.replay.as_ref().unwrap());
-    let mut f = std::fs::OpenOptions::new().create(true).append(true).open(format!("{}/untrusted.part.jsonl", opts.out)).unwrap();
-    for case in cases.iter().skip(opts.n) {
-        let out = run_case(case, &keys);
-        writeln!(f, "{}", out).unwrap();
-        f.flush().unwrap();
-    }
+    child_loop(opts, "untrusted", &cases, |case| run_case(case, &keys));
 }
 
 pub fn run(opts: &Opts) {
@@ -865,65 +859,7 @@ pub fn run(opts: &Opts) {
         Some(p) => read_cases(p),
         None => gen_cases(opts, &keys),
     };
-    std::fs::create_dir_all(&opts.out).unwrap();
-    let todo = format!("{}/untrusted.todo.jsonl", opts.out);
-    std::fs::write(&todo, cases.iter().map(|c| c.to_string()).collect::<Vec<_>>().join("\n") + "\n").unwrap();
-    let part = format!("{}/untrusted.part.jsonl", opts.out);
-    let _ = std::fs::remove_file(&part);
-    let exe = std::env::current_exe().unwrap();
-    let mut outs: Vec<Value> = vec![];
-    let count_lines = |p: &str| std::fs::read_to_string(p).map(|s| s.lines().count()).unwrap_or(0);
-    while outs.len() < cases.len() {
-        let start = outs.len();
-        let _ = std::fs::remove_file(&part);
-        let mut ch = std::process::Command::new(&exe)
-            .args(["untrusted-child", "--replay", &todo, "--n", &start.to_string(), "--out", &opts.out])
-            .stdout(std::process::Stdio::null())
-            .stderr(std::process::Stdio::null())
-            .spawn()
-            .unwrap();
-        // watchdog: a case that makes no progress for 20 s is a hang
-        let mut last = 0usize;
-        let mut idle = 0u32;
-        let status = loop {
-            match ch.try_wait().unwrap() {
-                Some(s) => break Some(s),
-                None => {
-                    std::thread::sleep(Duration::from_millis(50));
-                    let n = count_lines(&part);
-                    if n == last {
-                        idle += 1;
-                    } else {
-                        idle = 0;
-                        last = n;
-                    }
-                    if idle > 400 {
-                        let _ = ch.kill();
-                        let _ = ch.wait();
-                        break None;
-                    }
-                }
-            }
-        };
-        let done: Vec<Value> = std::fs::read_to_string(&part).unwrap_or_default().lines().filter_map(|l| serde_json::from_str(l).ok()).collect();
-        outs.extend(done);
-        if outs.len() < cases.len() {
-            // the child died on the next case
-            let why = match status {
-                None => "no progress for 20 s (hang)".to_string(),
-                Some(s) => {
-                    use std::os::unix::process::ExitStatusExt;
-                    match s.signal() {
-                        Some(sig) => format!("killed by signal {sig}"),
-                        None => format!("exit status {:?}", s.code()),
-                    }
-                }
-            };
-            outs.push(json!({"abort": why}));
-        }
-    }
-    let _ = std::fs::remove_file(&part);
-    let _ = std::fs::remove_file(&todo);
+    let outs = run_in_children(opts, "untrusted", &cases);
     let mut sink = Sink::new(opts, "untrusted");
     let mut stats: BTreeMap<String, u64> = BTreeMap::new();
     for (c, o) in cases.iter().zip(outs.iter()) {
